@@ -21,11 +21,11 @@ CLAIMED = {
                 text="Identity registry maintained by the elements' own Drop/Clone; for an arbitrary identity: visible places == live count <= 1 after every step, destroyed exactly once at the end; two-vector exchanges from arbitrary states, three-vector chains for enumerated shapes."),
     "C04": dict(cat="model_checking", ref="DESIGN.md §3 C04", tech=A,
                 text="Every checked entry point x (vector type, offered type) incl. same-size pairs: mismatch must reach the type-check panic with the vector unchanged at that point; downcasts succeed iff the type is the real one; type reports are the real ones."),
-    "C05": dict(cat="model_checking", ref="DESIGN.md §1.3, §3 C05", tech=A,
-                text="The C01/C02/C03/C08/C10 harness bodies on a user-defined backend that relocates on every resize and on Heap under Kani's relocating realloc: CBMC's object-bounds / freed-object / ub_checks are the oracle; storage lifecycle counters."),
-    "C06": dict(cat="model_checking", ref="DESIGN.md §3 C06", tech=A,
+    "C05": dict(cat="model_checking", ref="DESIGN.md §1.3, §3 C05", tech=AB,
+                text="The C01/C02/C03/C08/C10 harness bodies on a user-defined backend that relocates on every resize and on Heap under Kani's relocating realloc; which bytes insert / push / remove / swap_remove / the drain-splice tail move copy, relative to the storage pointer obtained after reserving, for all 64-bit (len, index) (SMT over MIR). CBMC's object-bounds / freed-object / ub_checks are the oracle; storage lifecycle counters."),
+    "C06": dict(cat="model_checking", ref="DESIGN.md §3 C06", tech=AB,
                 text="Symbolic fault point: at the k-th user-code invocation (element Drop/Clone, replacement next) all vectors are inspected at that instant for the validity predicate; misreporting ExactSizeIterator with symbolic error -2..=+2. Native replay panics and unwinds for real."),
-    "C07": dict(cat="model_checking", ref="DESIGN.md §3 C07", tech=A,
+    "C07": dict(cat="model_checking", ref="DESIGN.md §3 C07", tech=AB,
                 text="mem::forget of every handle / range iterator at every stage (symbolic front/back consumption) or of a yielded item, then validity predicate, further use and drop."),
     "C08": dict(cat="model_checking", ref="DESIGN.md §3 C08", tech=A,
                 text="clone from every state: per-identity clone counters, type/layout/len, storage disjointness, independence under one further operation on either vector; clone_empty(_in) across backend pairs."),
@@ -37,7 +37,7 @@ CLAIMED = {
                 text="Capacity grid for Stack/StackN, capacity+1 must panic, every stack-backend harness runs with allocator stubs that fail on any heap request; Stack::build / StackN::build for free 64-bit SIZE, N, element size (SMT)."),
     "C12": dict(cat="model_checking", ref="DESIGN.md §3 C12", tech=AB,
                 text="Pointer/length identities of every byte and slice view, alignment with the vector placed at enumerated offsets of a 64-aligned arena, spare-capacity writes + set_len; byte-view offset arithmetic via SMT. One recorded known finding (inline storage alignment >= 16)."),
-    "C13": dict(cat="model_checking", ref="DESIGN.md §3 C13", tech=A,
+    "C13": dict(cat="model_checking", ref="DESIGN.md §3 C13", tech=AB,
                 text="Every accessor kind addresses base + i*size and reports true type/size/bytes for symbolic i; writer-view x reader-view coherence; swap for every handle pairing."),
     "C14": dict(cat="model_checking", ref="DESIGN.md §3 C14", tech=AB,
                 text="All 2^(L+2) next/next_back interleavings in one query per iterator kind: exact size_hint/len at every step, order, each element once, fused, independent clones; cursor arithmetic via SMT."),
@@ -45,7 +45,7 @@ CLAIMED = {
                 tech="trait-clause encoding extracted from rustdoc JSON of the current tree, decided by z3 over configuration flags; encoder validated against rustc on every run",
                 text="Searches all 8 constraint sets x backend / element flag assignments for a configuration where a vector or handle is Send/Sync/Clone/constructible contrary to the property. A model of trait resolution, not the compiler: weaker than executing code, hence level 'other'.",
                 note="Trusted: this checker's auto-trait and impl-matching rules (compared with rustc on 480 facts per run; unknown constructs make the run inconclusive). Handles and methods covered are listed in the evidence."),
-    "C17": dict(cat="model_checking", ref="DESIGN.md §3 C17", tech=A,
+    "C17": dict(cat="model_checking", ref="DESIGN.md §3 C17", tech=AB,
                 text="into_raw_parts / RawParts::clone / from_raw_parts round trips from every state (once, twice), then one further operation; logging allocator; Empty backend."),
     "C18": dict(cat="model_checking", ref="DESIGN.md §3 C18, §2", tech=AB,
                 text="Logging allocator stubs assert validity and consistency of every layout presented to alloc/realloc/dealloc and leak freedom; capacity requests over the whole usize range; HeapMem::resize as one inductive step over all 64-bit states (SMT)."),
